@@ -23,7 +23,8 @@ RULE = ('family of DAG shapes over {Config of three callables incl. **kwargs '
         'new built around sub-objects of old (identity sharing); new = '
         'deepcopy(old) + every chain of <= k edits from {value change, '
         'callable swap, argument add/remove, tag add/remove, alias created, '
-        'alias broken, subtree moved}; non-trivial when old and new differ')
+        'alias broken, subtree moved, base tag removed from an argument that '
+        'also carries its subclass}; non-trivial when old and new differ')
 ASSUMPTIONS = [
     'equality is by mc.canon: callables, arguments, tags, sharing of '
     'Buildables/lists/dicts (tuple identity ignored)',
